@@ -76,13 +76,19 @@ theorem adapter_encrypt_spec (B : BlockCipher) (key : Bytes) (iv : Option Bytes)
         exact hd this
       · exact h (zeroPad_len_mod d)
     rw [if_neg h1]
-  simp only [Adapter.encrypt, hmode, hfeed, bind, Except.bind, pure, Except.pure]
+  have hne : ¬ d.length = 0 := by
+    intro h0; exact hd (List.length_eq_zero_iff.mp h0)
+  simp only [Adapter.encrypt, if_neg hne, hmode, hfeed, bind, Except.bind, pure, Except.pure]
 
-/-- empty data is refused (the feeder's bare `Exception`) -/
-theorem adapter_encrypt_empty (B : BlockCipher) (key : Bytes) (iv : Option Bytes) (k : B.K) (ivb : Bytes)
-    (hmode : Adapter.mkMode B key iv = .ok (k, ivb)) :
-    Adapter.encrypt B key iv [] = .error .bareException := by
-  simp [Adapter.encrypt, hmode, Adapter.feedAll, zeroPad, zeros, bind, Except.bind]
+/-- empty data is refused with `ValueError`, whatever key and IV are -/
+theorem adapter_encrypt_empty (B : BlockCipher) (key : Bytes) (iv : Option Bytes) :
+    Adapter.encrypt B key iv [] = .error .valueError := by
+  simp [Adapter.encrypt]
+
+/-- empty or unaligned ciphertext is refused with `ValueError` -/
+theorem adapter_decrypt_unaligned (B : BlockCipher) (key : Bytes) (iv : Option Bytes) (c : Bytes)
+    (h : c.length = 0 ∨ c.length % 16 ≠ 0) : Adapter.decrypt B key iv c = .error .valueError := by
+  simp only [Adapter.decrypt, if_pos h]
 
 /-- the MAC is the last ciphertext block -/
 theorem adapter_mac_spec (B : BlockCipher) (key : Bytes) (iv : Option Bytes) (d c : Bytes)
